@@ -152,6 +152,38 @@ Section Helpers.
     | None, None => mk_run (Done (op idx)) 1 []
     end.
 
+  (* Builder construction.  `OperationBuilder::new()` / `CloudIOExecutor::new()` (= `default()`)
+     start with both fields None; `with_retry(config)` sets `retry_config = Some(config)` and
+     nothing else; `with_timeout(timeout)` sets `timeout = Some(timeout)` and nothing else.  The
+     configuration `execute` sees is the fold of the setter calls, in call order. *)
+  Inductive setter :=
+  | SetRetry (c : retry_cfg)      (* .with_retry(c) *)
+  | SetTimeout (t : N).           (* .with_timeout(t) *)
+
+  Record builder_cfg := mk_builder {
+    b_retry : option retry_cfg;
+    b_timeout : option N
+  }.
+
+  Definition builder_new : builder_cfg := mk_builder None None.
+
+  Definition apply_setter (b : builder_cfg) (s : setter) : builder_cfg :=
+    match s with
+    | SetRetry c => mk_builder (Some c) (b_timeout b)
+    | SetTimeout t => mk_builder (b_retry b) (Some t)
+    end.
+
+  Definition build (setters : list setter) : builder_cfg :=
+    fold_left apply_setter setters builder_new.
+
+  (* OperationBuilder::new().<setters>.execute(op) and the same for CloudIOExecutor *)
+  Definition builder_run (tmsg : M) (setters : list setter) (elapsed : N)
+             (op : nat -> res X M) (idx : nat) : run X M :=
+    let b := build setters in builder_execute tmsg (b_retry b) (b_timeout b) elapsed op idx.
+  Definition executor_run (tmsg : M) (setters : list setter) (elapsed : N)
+             (op : nat -> res X M) (idx : nat) : run X M :=
+    let b := build setters in executor_execute tmsg (b_retry b) (b_timeout b) elapsed op idx.
+
   (* run_parallel: `operations.into_iter().map(|op| op()).collect::<CloudResult<Vec<T>>>()` -
      sequential, lazy, stops at the first Err.  `ops` = what each FnOnce returns if it is called.
      Result and number of closures actually called. *)
@@ -174,6 +206,8 @@ Arguments run_with_timeout_and_retry {X M}.
 Arguments run_cloud_io_with_retry_and_timeout {X M}.
 Arguments builder_execute {X M}.
 Arguments executor_execute {X M}.
+Arguments builder_run {X M}.
+Arguments executor_run {X M}.
 Arguments run_parallel {X M}.
 
 Section Batch.
